@@ -21,6 +21,8 @@ punctuation = set.union(
 )
 
 code_pattern = re.compile(r"(?<!\\|`)(?:\\\\)*(`+)(?!`)(.+?)(?<!`)\1(?!`)", re.DOTALL)
+# the code span proper, without the escaped backslashes that may stand before it
+code_span_pattern = re.compile(r"(`+)(?!`)(.+?)(?<!`)\1(?!`)", re.DOTALL)
 
 
 _code_matches = []
@@ -38,12 +40,12 @@ def find_core_tokens(string, root):
     i = 0
     code_match = code_pattern.search(string)
     while i < len(string):
-        if code_match is not None and i == code_match.start():
+        if code_match is not None and i == code_match.start(1):
             if in_delimiter_run is not None:
                 delimiters.append(Delimiter(start, i if not escaped else i - 1, string))
                 in_delimiter_run = None
                 escaped = False
-            _code_matches.append(code_match)
+            _code_matches.append(code_span_pattern.match(string, i))
             i = code_match.end()
             code_match = code_pattern.search(string, i)
             continue
